@@ -233,7 +233,10 @@ for _pid, _nt, _txt in [("C09", "length >= 2", "TreeWF/EndpointsWF hold on every
         rule=_ir_rule + _nt + ".", exhaustive=dict(quick=True, thorough=True), assumptions=_ir_assume, text=_txt,
         note="Trusted: TLC, Json module, the projection in harness/internal/proj (uses the real ParseKey), the renderer of declarations to D2 text in harness/cmd/vdrive/ir.go.")
 # C10 is also decided on the class alphabet: class values are defaults under an object's own values
-PROPS["C10"]["also"] = ["irclass"]
+PROPS["C10"]["also"] = ["irclass", "irnest"]
+PROPS["C11"]["also"] = ["irnest"]
+# C09's tree and endpoint conditions are also evaluated on every board compiled from the full-language generators
+PROPS["C09"]["also"] = ["pipe_wf"]
 PROPS["C10"]["rule"] += (" The same is done over the 30-declaration alphabet specs/ir_alphabet_class.json: objects with own shapes and style values, attribute and object null, 7 class definitions (two classes, one spelled in another letter case, "
                          "definitions before and after their uses, a redefinition), 8 class assignments (single, lists in both orders, an unknown class, on a nested object) and the removal of the class.")
 PROPS["C10"]["assumptions"] = _ir_assume + ["classes (DEVIATION-4 of D2IR.tla, following the code where the property text is silent): a class value is a default under the object's own value wherever either is written; the last class assignment replaces earlier ones; "
@@ -253,6 +256,8 @@ def corrupt_irglob(lines, pid):
 _CLASS_RENAMES = {"ir_alphabet.json": "ir_alphabet_class.json"}
 FAMILIES["irclass"] = dict(vdrive="ir", trace_module="TraceD2IR", trace_cfg="TraceD2IR.cfg", corrupt=corrupt_ir, engine="TraceD2IR",
                            args={"alphabet": _os.path.join(_SPECS, "ir_alphabet_class.json")}, chunk=6000, heap="4g", renames=_CLASS_RENAMES)
+FAMILIES["irnest"] = dict(vdrive="ir", trace_module="TraceD2IR", trace_cfg="TraceD2IR.cfg", corrupt=corrupt_ir, engine="TraceD2IR",
+                          args={"alphabet": _os.path.join(_SPECS, "ir_alphabet_nested.json")}, chunk=6000, heap="4g", renames={"ir_alphabet.json": "ir_alphabet_nested.json"})
 _GLOB_RENAMES = {"ir_alphabet.json": "ir_alphabet_glob.json"}
 FAMILIES["irglob"] = dict(vdrive="ir", trace_module="TraceD2IR", trace_cfg="TraceD2IR_glob.cfg", corrupt=corrupt_irglob, engine="TraceD2IR",
                           args={"alphabet": _os.path.join(_SPECS, "ir_alphabet_glob.json")}, chunk=6000, heap="4g", renames=_GLOB_RENAMES)
@@ -284,6 +289,12 @@ def corrupt_pipe(lines, pid):
         if pid == "C07" and ev == "compile":
             e["ok"], e["errPositioned"] = 0, 0
             return "a compile result turned into an unpositioned error"
+        if pid == "C09" and ev == "wf":
+            for b in e["boards"]:
+                if b["rootKids"]:
+                    b["rootKids"].append(b["rootKids"][0])
+                    b["rootMapKids"] += 1
+                    return "the root of a board made to list its first child twice"
         if pid == "C08" and ev == "recompile":
             e["digests"][0] = "tampered"
             return "one recompilation digest replaced"
@@ -321,9 +332,10 @@ def _pipe_family(name, modes, stages, n, space, engines="dagre"):
                           args={"modes": modes, "stages": stages, "n": str(n), "space": str(space), "engines": engines}, chunk=1500, heap="4g")
 
 
-_pipe_family("pipe_fmt", "text,text2,soup", "fmt", 300, 1200)
-_pipe_family("pipe_compile", "text,text-mut,text2,text2-mut,soup", "compile", 800, 4000)
-_pipe_family("pipe_det", "text,text2,soup", "determinism", 150, 1200)
+_pipe_family("pipe_fmt", "text,text2,text3,soup", "fmt", 300, 1200)
+_pipe_family("pipe_compile", "text,text-mut,text2,text2-mut,text3,text3-mut,soup", "compile", 800, 4000)
+_pipe_family("pipe_det", "text,text2,text3,text2-mut,text3-mut,soup", "determinism", 150, 1200)
+_pipe_family("pipe_wf", "text,text2,text3,layout,soup", "wf", 300, 1200)
 _pipe_family("pipe_layout", "layout,layout-tricky", "layout", 100, 1200, "dagre,elk")
 _pipe_family("pipe_serde", "layout,layout-tricky", "layout,serde", 60, 1200, "dagre,elk")
 
